@@ -68,7 +68,78 @@ let bump_mode dbg inp outp =
   ) (read_lines inp);
   close_out oc
 
+(* ------------------------------------------------------------------ pool *)
+let pool_mode dbg inp outp =
+  let oc = open_out outp in
+  let single = ref None in
+  let set = ref None in
+  List.iter (fun line ->
+    match words line with
+    | [] -> ()
+    | "P" :: id :: ssz :: cnt :: _ ->
+        single := Some { pc_pool = pool_new Z0 (z_of_int (int_of_string ssz)) (z_of_int (int_of_string cnt)); pc_live = [] };
+        set := None;
+        Printf.fprintf oc "P %s base=0\n" id
+    | "PS" :: id :: _ ->
+        let c0 = cinit Z0 (z_of_int (4 lsl 20)) in
+        (match pset_new dbg c0.c_s with
+         | Some ps ->
+             set := Some { sc_set = ps; sc_live = [] }; single := None;
+             let bases = String.concat " " (List.map (fun p -> zs p.p_base) ps.ps_pools) in
+             Printf.fprintf oc "PS %s off=%s bases=%s\n" id (zs ps.ps_arena.s_a.a_off) bases
+         | None -> failwith "pset_new failed")
+    | w ->
+        let n i = int_of_string (List.nth w i) in
+        (match !single, !set with
+         | Some c, _ ->
+             let o = match List.hd w with
+               | "a" -> PAlloc | "f" -> PFree (nat_of_int (n 1)) | "c" -> PContains (z_of_int (n 1))
+               | s -> failwith ("unknown op " ^ s) in
+             let (c', r) = pstep c o in
+             single := Some c';
+             (match r with
+              | PRSlot (a, l) -> Printf.fprintf oc "slot %s %s" (zs a) (zs l)
+              | PRExhausted -> output_string oc "exhausted"
+              | PRFreed a -> Printf.fprintf oc "freed %s" (zs a)
+              | PRNone -> output_string oc "none"
+              | PRBool b -> Printf.fprintf oc "contains %b" b
+              | PRPanic -> output_string oc "PANIC");
+             let ((l, f), b) = pcounters c'.pc_pool in
+             Printf.fprintf oc " | %s %s %s\n" (zs l) (zs f) (zs b)
+         | None, Some c ->
+             let o = match List.hd w with
+               | "a" -> SAlloc (z_of_int (n 1)) | "f" -> SFree (nat_of_int (n 1))
+               | "c" -> SContains (z_of_int (n 1)) | "k" -> SClass (z_of_int (n 1))
+               | s -> failwith ("unknown op " ^ s) in
+             let touched = match o with
+               | SAlloc sz -> size_class sz
+               | SFree idx ->
+                   (match c.sc_live with
+                    | [] -> None
+                    | l -> let k = (n 1) mod (List.length l) in size_class (List.nth l k).sb_size)
+               | _ -> None in
+             let (c', r) = sstep dbg c o in
+             set := Some c';
+             (match r with
+              | SRBuf (pooled, a, l) -> Printf.fprintf oc "%s %s %s" (if pooled then "pool" else "arena") (zs a) (zs l)
+              | SRFreed a -> Printf.fprintf oc "freed %s" (zs a)
+              | SRNone -> output_string oc "none"
+              | SRBool b -> Printf.fprintf oc "contains %b" b
+              | SRClass (Some k) -> Printf.fprintf oc "class %s" (zs k)
+              | SRClass None -> output_string oc "class none"
+              | SRPanic -> output_string oc "PANIC");
+             let off = zs c'.sc_set.ps_arena.s_a.a_off in
+             (match touched with
+              | Some k ->
+                  let ((l, f), b) = class_counters c'.sc_set k in
+                  Printf.fprintf oc " | %s %s %s %s %s\n" (zs k) (zs l) (zs f) (zs b) off
+              | None -> Printf.fprintf oc " | - %s\n" off)
+         | None, None -> failwith "header first")
+  ) (read_lines inp);
+  close_out oc
+
 let () =
   match Array.to_list Sys.argv with
+  | _ :: "pool" :: dbg :: inp :: outp :: _ -> pool_mode (dbg = "1") inp outp
   | _ :: "bump" :: dbg :: inp :: outp :: _ -> bump_mode (dbg = "1") inp outp
   | _ -> prerr_endline "usage: nsmodel <mode> ..."; exit 2
